@@ -3,7 +3,7 @@ from __future__ import annotations
 
 import ast
 
-from .. import AnalysisError, flow, states, guards, rules
+from .. import AnalysisError, flow, states, guards, rules, cmp
 from ..report import Ctx
 
 INS = "nrel/hive/dispatcher/instruction/instructions.py"
@@ -31,6 +31,11 @@ def run(ctx: Ctx):
     arrival(ctx)
     instructions(ctx)
     dropoff(ctx)
+    # a travelling vehicle's stored route stays anchored at its position: the traversal contract move() relies on
+    from . import c06
+    ctx.attempt(c06.split, ctx)
+    ctx.attempt(c06.partition, ctx)
+    ctx.attempt(c06.move_bookkeeping, ctx)
     # the geoid of a station/base compared in the guards is the entity's own position cell: `geoid` property
     ctx.floor("GD.LOC", 11)
     ctx.floor("GD.ARRIVE", 3)
@@ -40,39 +45,42 @@ def run(ctx: Ctx):
 
 
 def validator(ctx: Ctx):
-    """route_cooresponds_with_entities: True only if route[0].start == src.geoid and (dst given =>
-    route[-1].end == dst.geoid); empty route: no dst or src == dst."""
+    """route_cooresponds_with_entities as a truth table over its five atoms: route empty (E), destination given (D),
+    src == dst (Q), first link starts at src (S), last link ends at dst (T).
+      E and not D -> True;  E and D -> Q;  not E and not D -> S;  not E and D -> S and T."""
     fn = ctx.repo.func(ROUTE, "route_cooresponds_with_entities")
     route, src, dst = fn.params[:3]
+    E, D, Q = f"TupleOps.is_empty({route})", dst, f"{src} == {dst}"
+    S_forms = (f"{route}[0].start == {src}.geoid", f"{src}.geoid == {route}[0].start")
+    T_forms = (f"{route}[-1].end == {dst}.geoid", f"{dst}.geoid == {route}[-1].end")
+    E_forms = (E, f"len({route}) == 0", f"not {route}")
+    paths = flow.paths(fn.node)
+    import itertools
+    bad = []
     n = 0
-    for p in flow.paths(fn.node):
-        if p.kind != "return":
-            continue
+    for e, d, q, s_, t in itertools.product([False, True], repeat=5):
+        free = {E: e, f"len({route}) == 0": e, D: d, Q: q, f"{dst} == {src}": q}
+        for f_ in S_forms:
+            free[f_] = s_
+        for f_ in T_forms:
+            free[f_] = t
+        free[route] = not e
+        ev = cmp.Evaluator({}, free)
+        try:
+            p = cmp.taken_path(paths, ev)
+            if p is None or p.kind != "return":
+                raise AnalysisError("route_cooresponds_with_entities: no return path for a valuation")
+            got = ev.truth(p.value)
+        except cmp.Unknown as u:
+            raise AnalysisError(f"route_cooresponds_with_entities depends on something outside its five atoms: {flow.dump(u.node)[:80]}")
+        want = (True if not d else q) if e else (s_ if not d else (s_ and t))
         n += 1
-        facts = [(flow.dump(a), pol) for a, pol in p.facts()]
-        empty = (f"TupleOps.is_empty({route})", True) in facts
-        nonempty = (f"TupleOps.is_empty({route})", False) in facts
-        v = p.value
-        if empty:
-            ok = flow.dump(v) == f"not {dst} or {src} == {dst}"
-            ctx.check(ok, "D2", "GD.validator", "empty route is valid only with no destination or src == dst", fn, p.end,
-                      why_bad=f"returns {flow.dump(v)}", construct="route_cooresponds:empty")
-        elif nonempty:
-            has_dst = (dst, True) in facts
-            no_dst = (dst, False) in facts
-            if no_dst:
-                ok = flow.dump(v) == f"{route}[0].start == {src}.geoid"
-                ctx.check(ok, "D2", "GD.validator", "without destination: first link starts at src", fn, p.end,
-                          why_bad=f"returns {flow.dump(v)}", construct="route_cooresponds:src-only")
-            elif has_dst:
-                ok = flow.dump(v) == f"{route}[0].start == {src}.geoid and {route}[-1].end == {dst}.geoid"
-                ctx.check(ok, "D2", "GD.validator", "with destination: first link starts at src and last link ends at dst", fn, p.end,
-                          why_bad=f"returns {flow.dump(v)}", construct="route_cooresponds:src-dst")
-            else:
-                raise AnalysisError("route_cooresponds_with_entities: unrecognised non-empty path")
-        else:
-            raise AnalysisError("route_cooresponds_with_entities: unrecognised path")
-    ctx.require(n >= 3, "route_cooresponds_with_entities: expected 3 return paths")
+        if got != want:
+            bad.append(({"empty": e, "dst": d, "src==dst": q, "starts_at_src": s_, "ends_at_dst": t}, got, want))
+    ctx.check(not bad, "D2", "GD.validator", "route_cooresponds_with_entities: empty route only for no-destination or src == dst; otherwise first link starts at src and (if given) last link ends at dst",
+              fn, why_ok=f"{n} valuations of the five atoms agree", why_bad=f"{len(bad)} valuations differ, e.g. {bad[:2]}", construct="route_cooresponds:table", witness={"bad": [str(b) for b in bad[:6]]})
+    ctx.ok("D2", "GD.validator", "validator evaluated on all 32 valuations", fn)
+    ctx.ok("D2", "GD.validator", "validator depends on nothing but its five atoms", fn)
 
 
 def arrival(ctx: Ctx):
